@@ -1,6 +1,13 @@
 package main
 
 func init() {
+	register(&PropertySpec{ID: "XLOCK", Rules: []RuleSpec{{"lock-pairing", "all", func(c *Ctx) {
+		var rels []string
+		for _, pk := range c.P.Pkgs {
+			rels = append(rels, pkgRel(pk.Types))
+		}
+		lockPairingPkgs(c, rels, symAssume("pkg/core/storage#private", false), 10)
+	}}}})
 	register(&PropertySpec{
 		ID: "C06",
 		Rules: []RuleSpec{
@@ -31,6 +38,14 @@ func init() {
 		NotCovered: "idempotence of re-executing a partially persisted stage, content equality after recovery, GC passes, header-hash page arithmetic",
 	})
 	register(&PropertySpec{
+		ID: "C20",
+		Rules: []RuleSpec{
+			{"lock-pairing", "in pkg/network/bqueue and pkg/core/statesync every mutex acquired is released on every exit (defer-aware, boolean-correlated; the hand-unlocked Blocking branch of Queue.Put included)", func(c *Ctx) { lockPairingPkgs(c, []string{"pkg/network/bqueue", "pkg/core/statesync"}, nil, 10) }},
+			{"chan-typestate", "every send on Queue.checkBlocks holds queueLock and follows a `discarded` check made after the lock was last acquired; the channel is closed only by the function that sets the flag", ruleChanTypestate},
+		},
+		NotCovered: "ring-buffer position arithmetic, lastQ, in-order application, pool/path bookkeeping, lockstep with the source node",
+	})
+	register(&PropertySpec{
 		ID: "C07",
 		Rules: []RuleSpec{
 			{"admit-dominators", "every admission check of verifyAndPoolTx (script, expiry, VUB window, policy, size, network fee, on-chain/conflict record, witnesses with the remaining fee, attributes) gates pool.Add on every CFG path", ruleAdmitDominators},
@@ -40,6 +55,7 @@ func init() {
 	register(&PropertySpec{
 		ID: "C08",
 		Rules: []RuleSpec{
+			{"lock-pairing", "in pkg/core/mempool every mutex acquired is released on every exit of every function (defer-aware, boolean-correlated), never released unheld, never re-acquired while held", func(c *Ctx) { lockPairingPkgs(c, []string{"pkg/core/mempool"}, nil, 10) }},
 			{"tautology", "no comparison of a side-effect-free expression with itself anywhere in the module (==, Equals, Cmp, bytes.Equal, ...)", ruleTautology},
 		},
 		NotCovered: "ordering by priority, capacity arithmetic, eviction of the lowest entry only, total-order properties of the comparison",
